@@ -558,6 +558,26 @@ class Interp:
     def s_Pass(self, s):
         pass
 
+    def s_Delete(self, s):
+        for t in s.targets:
+            if isinstance(t, ast.Name):
+                self.env.pop(t.id, None)
+            elif isinstance(t, ast.Subscript):
+                obj = self.eval(t.value)
+                if isinstance(t.slice, ast.Slice):
+                    lo = self.eval(t.slice.lower) if t.slice.lower else None
+                    hi = self.eval(t.slice.upper) if t.slice.upper else None
+                    if is_sym(lo) or is_sym(hi) or not isinstance(obj, list):
+                        raise Unsupported("symbolic del slice at line %d" % s.lineno)
+                    del obj[lo:hi]
+                else:
+                    idx = self.eval(t.slice)
+                    if is_sym(idx) or not isinstance(obj, (list, dict)):
+                        raise Unsupported("symbolic del index at line %d" % s.lineno)
+                    del obj[idx]
+            else:
+                raise Unsupported("del target at line %d" % s.lineno)
+
     def s_Return(self, s):
         raise _Return(self.eval(s.value) if s.value is not None else None)
 
